@@ -62,6 +62,9 @@ pub struct ModSpec {
 pub struct Case {
     pub global: Vec<Elem>,
     pub mods: Vec<ModSpec>,
+    /// build the same network from an NDL description through a registry instead of node()/gate()/connect()
+    #[serde(default)]
+    pub via_ndl: bool,
 }
 
 pub struct C14;
@@ -255,7 +258,9 @@ fn restart_of(m: &ModSpec) -> Option<(usize, u128)> {
 
 pub fn run_case(case: &Case) -> Result<(bool, Vec<&'static str>), Failure> {
     let g = case.global.len();
-    let mods: Vec<&ModSpec> = case.mods.iter().take(2).collect();
+    // an NDL-built network has one target module: the order in which a description's submodules are created (and
+    // hence started and torn down) is not this property's subject
+    let mods: Vec<&ModSpec> = case.mods.iter().take(if case.via_ndl { 1 } else { 2 }).collect();
     net::log_clear();
     let global = case.global.clone();
     let mut sim = Sim::new(()).with_stack(move || {
@@ -272,6 +277,7 @@ pub fn run_case(case: &Case) -> Result<(bool, Vec<&'static str>), Failure> {
     let names: Vec<String> = (0..mods.len()).map(|i| format!("m{i}")).collect();
     // timelines: wakes at even ms, messages at odd ms; distinct per module: module i shifted by i*100 us
     let mut timeline: Vec<(u128, usize, Option<u16>, usize)> = Vec::new(); // (time, module, Some(id)=message | None=wake, ordinal)
+    let mut built: Vec<M> = Vec::new();
     for (i, m) in mods.iter().enumerate() {
         let mut wakes: Vec<u128> = m.wakes.iter().map(|w| (*w as u128 + 1) * 2_000_000 + i as u128 * 100_000).collect();
         wakes.sort_unstable();
@@ -279,8 +285,7 @@ pub fn run_case(case: &Case) -> Result<(bool, Vec<&'static str>), Failure> {
         for (k, w) in wakes.iter().enumerate() {
             timeline.push((*w, i, None, k));
         }
-        sim.node(
-            names[i].as_str(),
+        built.push(
             M {
                 end_err: m.end_err,
                 pending_join: m.pending_join && (m.stages % 3) >= 1,
@@ -298,10 +303,51 @@ pub fn run_case(case: &Case) -> Result<(bool, Vec<&'static str>), Failure> {
             },
         );
     }
-    sim.node("sink", Sink);
-    let sink_in = sim.gates("sink", "in", mods.len().max(1));
-    for (i, name) in names.iter().enumerate() {
-        sim.gate(name.as_str(), "out").connect(sink_in[i].clone(), None);
+    if case.via_ndl {
+        // the same modules, gates and connections, described in NDL and created by a registry
+        struct Root;
+        impl Module for Root {}
+        let n = built.len();
+        let mut text = String::from("entry: Net\nmodules:\n  Net:\n    submodules:\n");
+        for i in 0..n {
+            text.push_str(&format!("      m{i}: T{i}\n"));
+        }
+        text.push_str("      sink: Snk\n    connections:\n");
+        for i in 0..n {
+            text.push_str(&format!("    - peers: [\"m{i}/out\", \"sink/in[{i}]\"]\n"));
+        }
+        for i in 0..n {
+            text.push_str(&format!("  T{i}:\n    gates:\n    - out\n"));
+        }
+        text.push_str(&format!("  Snk:\n    gates:\n    - \"in[{}]\"\n", n.max(1)));
+        let def: des::net::ndl::Def = match serde_yml::from_str(&text) {
+            Ok(d) => d,
+            Err(e) => {
+                drop(sim);
+                return Err(Failure::new("harness-ndl", format!("harness produced NDL that does not parse: {e}\n{text}")));
+            }
+        };
+        let mut it = built.into_iter();
+        let m0 = std::cell::RefCell::new(it.next());
+        let m1 = std::cell::RefCell::new(it.next());
+        let mut reg = des::net::ndl::Registry::new()
+            .symbol_fn("Net", |_| Root)
+            .symbol_fn("Snk", |_| Sink)
+            .symbol_fn("T0", move |_| m0.borrow_mut().take().expect("T0 is created once"))
+            .symbol_fn("T1", move |_| m1.borrow_mut().take().expect("T1 is created once"));
+        if let Err(e) = sim.nodes_from_ndl(&def, &mut reg) {
+            drop(sim);
+            return Err(Failure::new("harness-ndl", format!("the harness' NDL description does not build: {e}\n{text}")));
+        }
+    } else {
+        for (i, m) in built.into_iter().enumerate() {
+            sim.node(names[i].as_str(), m);
+        }
+        sim.node("sink", Sink);
+        let sink_in = sim.gates("sink", "in", mods.len().max(1));
+        for (i, name) in names.iter().enumerate() {
+            sim.gate(name.as_str(), "out").connect(sink_in[i].clone(), None);
+        }
     }
     let targets: Vec<ModuleRef> = names.iter().map(|n| sim.get(&ObjectPath::from(n.as_str())).unwrap()).collect();
     for (i, m) in mods.iter().enumerate() {
@@ -578,6 +624,9 @@ pub fn run_case(case: &Case) -> Result<(bool, Vec<&'static str>), Failure> {
     if was_down.iter().any(|d| *d) {
         labels.push("shutdown-and-restart");
     }
+    if case.via_ndl {
+        labels.push("network-built-from-NDL-through-a-registry");
+    }
     if dead.borrow().iter().any(|d| *d) {
         labels.push("handler-panic-caught-by-the-stereotype");
     }
@@ -602,7 +651,7 @@ impl Prop for C14 {
     type Case = Case;
 
     fn rule() -> String {
-        "proptest: a global stack of 0..4 elements and 0..4 per-module elements (Module::stack, appended one by one or as one block) for 1..2 target modules, element kinds pass / rewrite \
+        "proptest: a global stack of 0..4 elements and 0..4 per-module elements (Module::stack, appended one by one or as one block) for 1..2 target modules (created with node()/gate()/connect() or, in a quarter of the cases, from an NDL description through a registry), element kinds pass / rewrite \
          id / consume-if(id % m == r) / also-send / send-on-event-end; events: start-up stages (0..2 per module), injected messages at distinct \
          instants, timer wake-ups of a task, a shutdown requested by the handler with a restart that replays the start-up stages (messages \
          that arrive while the module is down are dropped without any hook call), a handler panic that the module's stereotype declares caught (brackets closed all the same, nothing but tear-down afterwards), tear-down (also ending in an error: at_sim_end returns Err, or a joined task is still pending); \
@@ -660,8 +709,8 @@ impl Prop for C14 {
                 handler_burst,
                 panic_on,
             });
-        (proptest::collection::vec(elem, 0..5), proptest::collection::vec(m, 1..3))
-            .prop_map(|(global, mods)| Case { global, mods })
+        (proptest::collection::vec(elem, 0..5), proptest::collection::vec(m, 1..3), proptest::bool::weighted(0.25))
+            .prop_map(|(global, mods, via_ndl)| Case { global, mods, via_ndl })
             .boxed()
     }
     fn run(case: &Case) -> Outcome {
